@@ -49,7 +49,7 @@ def dump():
 def test(case):
     stats.evaluations += 1
     try:
-        part.oracle(case, stats)
+        runner.run_oracle(part, case, stats)
     except runner.Violation as v:
         fid = runner.match_known(mod, active, part.name, case, v)
         if fid:
